@@ -15,7 +15,12 @@ ASSUMPTIONS = ["a series whose timestamps all coincide (zero span) and that has 
                "Ts.get(start); such series are generated (and pass) with an explicit support and in the trial tensors",
                "warp_tensor for timestamps: PROVED equal to num_bins equal bins when num_bins divides the trial duration in ticks and refuted otherwise (the bin size is rounded "
                "to 1 ns and accumulated); CHECKED against exact rational equal half-open bins in both cases (a sample at the trial end is in no bin, as in count)",
-               "time support unchanged: proved for a non-empty selection, refuted for an empty one (the constructor drops an explicit support of an empty series); checked for every window"]
+               "time support unchanged: proved for a non-empty selection, refuted for an empty one (the constructor drops an explicit support of an empty series); checked for every window",
+               "argument forms outside the documented signatures are only required to be rejected with a clean exception (ValueError / TypeError / RuntimeError) or else to obey the statement: "
+               "a 0-d array as start / end / bin_size, num_bins given as np.int64 (documented type: int), an EMPTY trial IntervalSet; get(start) is not generated for an empty series / a group "
+               "with an empty member (no nearest sample exists); np.float32 / numpy integer scalars are generated only when they hold the instant exactly",
+               "trial_count in the widened forms is generated on the dyadic and whole-second grids only (every bin edge exact in float64); get / to_trial_tensor also on whole-ms, whole-us and "
+               "1 ns grids (both sides are rounded to 1e-9 s by the same routine, so edge coincidences are deterministic)"]
 
 U = 1953125
 
@@ -140,33 +145,856 @@ def warp_expect(ts, ep, nb):
     return [[sum(1 for t in ts if s <= t <= e and j * (e - s) <= nb * (t - s) < (j + 1) * (e - s)) for j in range(nb)] for s, e in ep]
 
 
-def warp_case(nap, ts, ts2, ep, nb, kind):
-    """warp_tensor on a Ts and on a TsGroup of two members; returns the list of violations"""
+def warp_case(nap, ts, ts2, ep, nb, kind, form=None, tags=None):
+    """warp_tensor on a Ts and on a TsGroup of two members; returns the list of violations.
+    form (optional) = the argument forms of the receiver, the trials and the call (see run_widened); None = the plain forms"""
     V = []
-    epo = nap.IntervalSet(G.arr([s for s, _ in ep]), G.arr([e for _, e in ep]))
     inp = {"ts": ts, "ts2": ts2, "ep": ep, "num_bins": nb}
     lo, hi = min(ts + ts2 + [s for s, _ in ep]), max(ts + ts2 + [e for _, e in ep])
     wide = nap.IntervalSet(lo / 1e9 - 1.0, hi / 1e9 + 1.0)
-    p = nap.Ts(G.arr(ts), time_support=wide)
-    g = nap.TsGroup({1: nap.Ts(G.arr(ts)), 3: nap.Ts(G.arr(ts2))}, time_support=wide)
     e1, e2 = warp_expect(ts, ep, nb), warp_expect(ts2, ep, nb)
-    for what, obj, expw in (("Ts", p, e1), ("TsGroup", g, [e1, e2])):
+    wkey = {}
+    NB = nb
+    call = lambda obj, epo_: nap.warp_tensor(obj, epo_, NB)
+    if form is None:
+        epo = nap.IntervalSet(G.arr([s for s, _ in ep]), G.arr([e for _, e in ep]))
+        p = nap.Ts(G.arr(ts), time_support=wide)
+        g = nap.TsGroup({1: nap.Ts(G.arr(ts)), 3: nap.Ts(G.arr(ts2))}, time_support=wide)
+        eg = [e1, e2]
+    else:
+        tags = [] if tags is None else tags
+        inp["form"] = form
+        wkey = {"widened": True}
+        grid = "ms" if kind == "ms" else "dyadic"
+        iu = GRIDS[grid][1]
+        try:
+            epo, epu = _mk_ep(nap, [tuple(e) for e in ep], form["epform"], iu, GRIDS[grid][0])
+            t_arg, tunits, used = _mk_times(nap, ts, form["tform"], iu)
+            p = nap.Ts(t_arg, time_units=tunits, time_support=wide)
+            g, gexp = _mk_group(nap, {"grid": grid, "group": form["group"], "ep": ep}, tags)
+        except Exception as ex:
+            return [{"key": {"op": "warp_tensor", "part": "construction", "widened": True}, "what": "building the inputs raised %s: %s" % (type(ex).__name__, str(ex)[:100]), "input": inp}]
+        eg = [warp_expect(gexp[k][0], ep, nb) for k in sorted(gexp)]
+        NB = np.int64(nb) if form["nbform"] == "np.int64" else nb
+        tags += ["trials form=" + epu, "time form=" + used + ("" if tunits == "s" else " time_units=" + tunits), "call form=" + form["cform"], "num_bins form=" + form["nbform"]]
+        if form["cform"] == "kw":
+            call = lambda obj, epo_: nap.warp_tensor(input=obj, ep=epo_, num_bins=NB)
+        elif form["cform"] == "mixed":
+            call = lambda obj, epo_: nap.warp_tensor(obj, epo_, num_bins=NB)
+    for what, obj, expw in (("Ts", p, e1), ("TsGroup", g, eg)):
         # bin_is_whole_ns: every trial whose row is wrong (every trial, for an exception) has a duration that num_bins divides in ns
         try:
-            W = np.asarray(nap.warp_tensor(obj, epo, nb))
+            W = np.asarray(call(obj, epo))
         except Exception as ex:
-            V.append({"key": {"op": "warp_tensor", "part": "exception", "input_kind": what, "lattice": kind, "bin_is_whole_ns": all((e - s) % nb == 0 for s, e in ep)},
+            if form is not None and isinstance(ex, TypeError) and form["nbform"] == "np.int64":
+                tags.append("num_bins=np.int64 rejected with a clean exception")      # the documented type is int
+                continue
+            V.append({"key": dict(wkey, op="warp_tensor", part="exception", input_kind=what, lattice=kind, bin_is_whole_ns=all((e - s) % nb == 0 for s, e in ep)),
                       "what": "warp_tensor raised %s: %s" % (type(ex).__name__, str(ex)[:100]), "input": inp})
             continue
-        E = np.asarray(expw, dtype=float)
+        E = np.asarray(expw, dtype=float).reshape((len(ep), nb) if what == "Ts" else (len(expw), len(ep), nb))
         if W.shape != E.shape:
-            V.append({"key": {"op": "warp_tensor", "part": "shape", "input_kind": what, "lattice": kind}, "what": "warp_tensor shape is not (members,) trials x num_bins", "input": inp})
+            V.append({"key": dict(wkey, op="warp_tensor", part="shape", input_kind=what, lattice=kind), "what": "warp_tensor shape is not (members,) trials x num_bins", "input": inp})
             continue
         bad = sorted({int(i) for i in np.argwhere(W != E)[:, -2]})
         if bad:
-            V.append({"key": {"op": "warp_tensor", "part": "counts", "input_kind": what, "lattice": kind, "bin_is_whole_ns": any((ep[i][1] - ep[i][0]) % nb == 0 for i in bad)},
+            V.append({"key": dict(wkey, op="warp_tensor", part="counts", input_kind=what, lattice=kind, bin_is_whole_ns=any((ep[i][1] - ep[i][0]) % nb == 0 for i in bad)),
                       "what": "warp_tensor(timestamps) is not counting in num_bins equal bins per trial", "input": inp, "impl": W.tolist(), "expected": E.tolist(), "trials": bad})
     return V
+
+
+# =====================================================================================================================
+# WIDENED ARGUMENT FORMS (DESIGN 10.10: every seeded defect missed in the third round lived in a form of the inputs that
+# the generators above never produce).  Every case below is described by a JSON-able `spec` (replayable); the oracles are
+# the clauses of class_case / the trial section / warp_case restated for the general form (expected values are always
+# derived from the raw integer ticks, never from the library's own objects).
+BIG = 10 ** 14                       # 1e5 s, a whole multiple of every grid step below
+UF = {"s": 10 ** 9, "ms": 10 ** 6, "us": 10 ** 3}
+# grid -> (half step h in ticks, unit in which the grid points are whole numbers): timestamps live on off + 2h*k, window edges on off + h*j
+GRIDS = {"dyadic": (U, None), "int_s": (10 ** 9, "s"), "int_ms": (10 ** 6, "ms"), "int_us": (10 ** 3, "us"), "ms": (10 ** 5, "us"), "ns": (1, None)}
+CLEAN = (ValueError, TypeError, RuntimeError)
+DTYPES = ("float64", "float32", "int64", "int32", "int16", "int8", "uint8", "uint16", "uint32", "uint64", "bool")
+TFORMS = ("ndarray", "list", "tuple", "pd.Index", "TsIndex", "other.t", "float32", "unit_ms", "unit_us", "int:int64", "int:int32", "int:int16",
+          "int:uint8", "int:uint16", "int:uint32", "int:uint64", "int_list", "pandas")
+SFORMS = ("float", "float", "int", "np.float64", "np.float32", "np.int64", "np.int32", "np.int16", "np.uint8", "np.uint16", "np.uint64", "0d")
+EPFORMS = ("arr", "kw", "list", "tuple", "int:int64", "int:int32", "int:uint8", "int:uint16", "int:uint64", "unit_ms", "unit_us", "pairs", "df", "meta", "inter",
+           "index", "slice", "copy", "f32")
+PADFORMS = ("default", "nan", "-1.0", "7.5", "int0", "int-1", "np.float32", "np.float64", "np.int64", "inf", "-inf")
+PADS = {"default": float("nan"), "nan": float("nan"), "-1.0": -1.0, "7.5": 7.5, "int0": 0, "int-1": -1, "np.float32": np.float32(2.5), "np.float64": np.float64(-3.0),
+        "np.int64": np.int64(9), "inf": float("inf"), "-inf": float("-inf")}
+KEYFORMS = {"ints": [2, 7, 5, 11], "str": ["12", "3", "101", "40"], "float": [3.0, 11.0, 7.0, 20.0], "big": [1000, 5, 70, 3],
+            "np": [np.int64(4), np.int64(1), np.int64(9), np.int64(6)], "range": [0, 1, 2, 3]}
+
+
+def _pd():
+    import pandas as pd
+    return pd
+
+
+def _scalar(ticks, u, form):
+    """the instant `ticks` (ns) expressed in unit u as a scalar of the requested form; falls back to a Python float when the form cannot hold it EXACTLY"""
+    v = ticks / UF[u]
+    whole = ticks % UF[u] == 0
+    iv = ticks // UF[u]
+    if form == "int" and whole:
+        return int(iv), form
+    if form == "np.float64":
+        return np.float64(v), form
+    if form == "np.float32" and float(np.float32(v)) == v:
+        return np.float32(v), form
+    if form in ("np.int64", "np.int32", "np.int16", "np.uint8", "np.uint16", "np.uint64") and whole:
+        dt = np.dtype(form[3:])
+        if np.iinfo(dt).min <= iv <= np.iinfo(dt).max:
+            return dt.type(iv), form
+    if form == "0d":
+        return np.array(v), form
+    return v, "float"
+
+
+def _f32_inexact(val, u, ticks):
+    """a np.float32 scalar (an exactly representable instant) whose conversion to seconds at 9 decimals is NOT that instant once it is carried out in float32
+    arithmetic (np.array([val]) keeps the dtype: the quotient by 1e3 / 1e6 and np.around(., 9) are then float32 operations). Only used as a key flag."""
+    if not isinstance(val, np.float32):
+        return False
+    q = np.array([val])
+    q = q if u == "s" else q / (1.0e3 if u == "ms" else 1.0e6)
+    return float(np.around(q, 9)[0]) != ticks / 1e9
+
+
+def _mk_times(nap, ts, tform, iu):
+    """the timestamps `ts` (ticks) in the requested argument form -> (t argument, time_units, form actually used)"""
+    fl = G.arr(ts)
+    if tform == "list":
+        return fl.tolist(), "s", tform
+    if tform == "tuple":
+        return tuple(fl.tolist()), "s", tform
+    if tform == "pd.Index":
+        return _pd().Index(fl, dtype="float64"), "s", tform
+    if tform in ("TsIndex", "other.t"):
+        donor = nap.Ts(fl, time_support=nap.IntervalSet(fl[0] - 1.0, fl[-1] + 1.0)) if len(ts) else nap.Ts(fl)
+        return (donor.index if tform == "TsIndex" else donor.t), "s", tform
+    if tform == "float32":
+        a32 = fl.astype(np.float32)
+        if np.array_equal(a32.astype(np.float64), fl):
+            return a32, "s", tform
+    if tform in ("unit_ms", "unit_us"):
+        u = tform[5:]
+        return np.array([t / UF[u] for t in ts], dtype=np.float64), u, tform
+    if (tform.startswith("int:") or tform == "int_list") and iu is not None and all(t % UF[iu] == 0 for t in ts):
+        iv = [t // UF[iu] for t in ts]
+        if tform == "int_list":
+            return [int(v) for v in iv], iu, tform
+        for dt in (tform[4:], "int64"):
+            info = np.iinfo(np.dtype(dt))
+            if all(info.min <= v <= info.max for v in iv):
+                return np.array(iv, dtype=dt), iu, "int:" + dt
+    return fl, "s", "ndarray"
+
+
+def _mk_vals(n, trail, dtype, special):
+    """(n,)+trail values: cell c of row i = i + m*(c+1) (every cell identifies its sample) unless `special` says otherwise"""
+    k = int(np.prod(trail)) if trail else 1
+    dt = np.dtype(dtype)
+    if dt == np.bool_:
+        v = (np.arange(n)[:, None] + np.arange(k)[None, :]) % 2 == 0
+    else:
+        m = 10 if dt.itemsize == 1 else 100
+        v = (np.arange(n)[:, None] + m * (np.arange(k)[None, :] + 1)).astype(dt)
+    if special == "equal":
+        v = np.full((n, k), 1 if dt == np.bool_ else 7).astype(dt)
+    elif special == "zeros":
+        v = np.zeros((n, k), dtype=dt)
+    elif special in ("nan", "inf", "naninf") and dt.kind == "f":
+        v = v.copy()
+        for i in range(n):
+            cyc = {"nan": [np.nan, None], "inf": [np.inf, -np.inf], "naninf": [np.nan, np.inf, -np.inf, None]}[special]
+            w = cyc[i % len(cyc)]
+            if w is not None:
+                v[i, i % k] = w
+    return v.reshape((n,) + tuple(trail))
+
+
+def _layout(v, layout):
+    if layout == "F" and v.ndim >= 2:
+        return np.asfortranarray(v)
+    if layout == "view":
+        return np.repeat(v, 2, axis=0)[::2]          # a strided view of a larger buffer
+    return np.ascontiguousarray(v)
+
+
+def _same(a, b):
+    a, b = np.asarray(a), np.asarray(b)
+    if a.shape != b.shape:
+        return False
+    if a.dtype.kind == "f" or b.dtype.kind == "f":
+        return bool(np.array_equal(a.astype(float), b.astype(float), equal_nan=True))
+    return bool(np.array_equal(a, b))
+
+
+def _mk_support(nap, ts, supkind, h):
+    lo, hi = min(ts), max(ts)
+    if supkind == "default":
+        return None, None
+    if supkind == "wide":
+        sup = [(lo - 3 * h, hi + 5 * h)]
+    else:
+        sup = [(lo - 3 * h, lo + 2 * h), (lo + 5 * h, hi + 5 * h)] if hi - lo >= 6 * h else [(lo - 3 * h, lo - h), (lo - h // 2, hi + 5 * h)]
+    return sup, nap.IntervalSet(G.arr([u for u, _ in sup]), G.arr([w for _, w in sup]))
+
+
+COLUMNS = {"default": None, "str": ["a", "b", "c"], "str_unsorted": ["z", "b", "m"], "int_unsorted": [5, 2, 9], "int_big": [100, 20, 3]}
+
+
+def _mk_series(nap, sp, tags):
+    """build the receiver described by sp (class, dtype, data, layout, time form, support, history).
+    Returns (x, ts, V0): the object, its expected timestamps (ticks) and expected values ((n,)+trail array, None for Ts); None when the form does not apply."""
+    import os
+    import tempfile
+    h, iu = GRIDS[sp["grid"]]
+    ts_all = list(sp["ts"])
+    cls, trail, hist, supkind = sp["cls"], sp["trail"], sp["hist"], sp["supkind"]
+    n_all = len(ts_all)
+    if n_all == 0:
+        supkind = "default"
+    if hist == "slice" and n_all:                      # an extra leading sample that the history slices away again
+        ts_all = [ts_all[0] - 2 * h] + ts_all
+        n_all += 1
+    sup, supo = _mk_support(nap, ts_all, supkind, h) if ts_all else (None, None)
+    if n_all and sup is None and len(set(ts_all)) < 2:
+        # zero-span series: its default support is empty (known quirk, exercised on purpose by the first sections): explicit support here
+        supkind = "wide"
+        sup, supo = _mk_support(nap, ts_all, "wide", h)
+    R = None
+    if hist == "restrict" and n_all:                   # the support comes from restrict() instead of the constructor
+        R, Ro = (sup, supo) if sup is not None else _mk_support(nap, ts_all, "wide", h)
+        csupo = None
+    else:
+        csupo = supo
+    t_arg, tunits, used = _mk_times(nap, ts_all, sp["tform"] if sp["tform"] != "pandas" else "ndarray", iu)
+    V_all = None
+    if cls != "Ts":
+        V_all = _layout(_mk_vals(n_all, trail, sp["dtype"], sp["special"]), sp["layout"])
+    kw = {}
+    if tunits != "s":
+        kw["time_units"] = tunits
+    if csupo is not None:
+        kw["time_support"] = csupo
+    pandas_form = sp["tform"] == "pandas" and cls in ("Tsd", "TsdFrame")
+    cols = None
+    if cls == "TsdFrame":
+        cols = COLUMNS[sp.get("columns", "default")]
+        cols = None if cols is None else cols[:trail[0]]
+    if sp["layout"] == "shared" and cls != "Ts":
+        # the same buffers first serve another live object (operands that share memory)
+        decoy = nap.TsdTensor(t_arg, V_all, **kw) if V_all.ndim > 2 else (nap.TsdFrame(t_arg, V_all, **kw) if V_all.ndim == 2 else nap.Tsd(t_arg, V_all, **kw))
+        if n_all:
+            decoy.get(float(G.arr(ts_all)[0]), float(G.arr(ts_all)[-1]))
+    if cls == "Ts":
+        x = nap.Ts(t_arg, **kw)
+    elif cls == "Tsd":
+        x = nap.Tsd(_pd().Series(V_all, index=t_arg), **kw) if pandas_form else nap.Tsd(t_arg, V_all, **kw)
+    elif cls == "TsdFrame":
+        if sp.get("frame_meta"):
+            kw["metadata"] = {"info_q": list(range(trail[0]))}
+        if pandas_form:
+            x = nap.TsdFrame(_pd().DataFrame(V_all, index=t_arg, columns=cols), **kw)
+        else:
+            x = nap.TsdFrame(t_arg, V_all, columns=cols, **kw) if cols is not None else nap.TsdFrame(t_arg, V_all, **kw)
+    else:
+        x = nap.TsdTensor(t_arg, V_all, **kw)
+    tags.append("time form=" + ("pandas" if pandas_form else used) + ("" if tunits == "s" else " time_units=" + tunits))
+    keep = [i for i, t in enumerate(ts_all) if sup is None or G.mem(t, sup)]
+    V0 = None if V_all is None else np.asarray(V_all)
+    # histories
+    if hist == "restrict" and n_all:
+        x = x.restrict(Ro)
+        keep = [i for i, t in enumerate(ts_all) if G.mem(t, R)]
+    elif hist == "slice" and n_all:
+        x = x[1:]
+        keep = keep[1:]
+    elif hist == "get" and n_all:
+        x = x.get(float(G.arr([ts_all[0] - h])[0]), float(G.arr([ts_all[-1] + h])[0]))
+    elif hist == "arith" and cls != "Ts":
+        x = x * 1
+        V0 = V0 * 1
+    elif hist == "npfunc" and cls != "Ts":
+        x = np.abs(x)
+        V0 = np.abs(V0)
+    elif hist == "saveload":
+        d = tempfile.mkdtemp(prefix="c08_")
+        p = os.path.join(d, "x.npz")
+        try:
+            x.save(p)
+            x = nap.load_file(p)
+        finally:
+            try:
+                os.remove(p)
+                os.rmdir(d)
+            except OSError:
+                pass
+    ts = [ts_all[i] for i in keep]
+    if V0 is not None:
+        V0 = V0[keep]
+    tags.append("history=" + hist)
+    tags.append("support=" + supkind)
+    return x, ts, V0, cols
+
+
+def _call(fn, req, opt, cform):
+    """call fn with the required arguments `req` [(name, value)] and the optional ones `opt` [(name, value, default, is_default)]:
+    pos = everything positional (defaults in between spelled out), kw = everything by keyword (defaults omitted), kwall = every parameter by keyword incl.
+    the defaults, mixed = required positional + the non-default options by keyword in reverse order"""
+    if cform == "pos":
+        last = max([i for i, o in enumerate(opt) if not o[3]], default=-1)
+        return fn(*[v for _, v in req], *[(o[2] if o[3] else o[1]) for o in opt[:last + 1]])
+    if cform == "kw":
+        return fn(**dict(req), **{o[0]: o[1] for o in opt if not o[3]})
+    if cform == "kwall":
+        return fn(**dict(req), **{o[0]: (o[2] if o[3] else o[1]) for o in opt})
+    return fn(*[v for _, v in req], **{o[0]: o[1] for o in reversed(opt) if not o[3]})
+
+
+def get_form_case(nap, sp):
+    """get / get_slice / get(start) / get_slice(start) on ONE receiver in the argument forms of sp. Returns (violations, tags)."""
+    V, tags = [], []
+    h, iu = GRIDS[sp["grid"]]
+    try:
+        x, ts, V0, cols = _mk_series(nap, sp, tags)
+    except Exception as ex:
+        return [{"key": {"op": "get", "part": "construction", "cls": sp["cls"], "widened": True}, "what": "building the receiver raised %s: %s" % (type(ex).__name__, str(ex)[:100]),
+                 "input": {"spec": sp}}], tags
+    cls, units, cform = sp["cls"], sp["units"], sp["cform"]
+    ul = units.lower()           # a unit string in another letter case ("MS"): rejected with a clean exception, or the statement for the unit it spells
+    n = len(ts)
+    before = _sup(x)
+    for a, b in sp["wins"]:
+        A, sa = _scalar(a, ul, sp["sa"])
+        B, sb = _scalar(b, ul, sp["sb"])
+        tags += ["scalar form=" + sa, "scalar form=" + sb, "call form=" + cform, "units=" + units]
+        f32 = bool(_f32_inexact(A, ul, a) or _f32_inexact(B, ul, b))
+        kk = {"cls": cls, "units": units, "zero_span_series": False, "widened": True,
+              "scalar_float32": bool(sa == "np.float32" or sb == "np.float32"), "float32_conversion_inexact": f32}
+        inp = {"spec": dict(sp, wins=[[a, b]]), "a": a, "b": b, "start": repr(A), "end": repr(B)}
+        exp = [i for i, t in enumerate(ts) if a <= t <= b]
+        dflt = units == "s" and cform in ("kw", "mixed")          # time_units left at its default
+        try:
+            r = _call(x.get, [("start", A)], [("end", B, None, False), ("time_units", units, "s", dflt)], cform)
+            sl = _call(x.get_slice, [("start", A)], [("end", B, None, False), ("time_unit", units, "s", dflt)], cform)
+            if n:
+                c = _call(x.get, [("start", A)], [("end", None, None, True), ("time_units", units, "s", dflt)], cform)
+                cs = _call(x.get_slice, [("start", A)], [("end", None, None, True), ("time_unit", units, "s", dflt)], cform)
+        except Exception as ex:
+            if isinstance(ex, CLEAN) and ("0d" in (sa, sb) or units != ul):
+                tags.append("0-d array scalar rejected with a clean exception" if units == ul else "unit string in another letter case rejected with a clean exception")
+                continue
+            V.append({"key": dict(kk, op="get", part="exception", exc=type(ex).__name__), "what": "get/get_slice raised %s: %s" % (type(ex).__name__, str(ex)[:100]), "input": inp})
+            continue
+        if not isinstance(sl, slice) or np.arange(n)[sl].tolist() != exp:
+            V.append({"key": dict(kk, op="get_slice", part="samples"), "what": "get_slice does not select exactly the samples with start <= t <= end", "input": inp,
+                      "impl": np.arange(n)[sl].tolist() if isinstance(sl, slice) else repr(sl), "expected": exp})
+        if type(r) is not type(x) or [C.to_ns(t) for t in r.t] != [ts[i] for i in exp] or (cls != "Ts" and not _same(r.values, V0[exp])):
+            V.append({"key": dict(kk, op="get", part="samples"), "what": "get(start, end) does not return exactly the samples (time and row) with start <= t <= end",
+                      "input": inp, "impl": [C.to_ns(t) for t in r.t], "expected": [ts[i] for i in exp]})
+        elif cls != "Ts" and r.values.dtype != x.values.dtype:
+            V.append({"key": dict(kk, op="get", part="dtype"), "what": "get(start, end) changed the dtype of the samples", "input": inp, "impl": str(r.values.dtype),
+                      "expected": str(x.values.dtype)})
+        elif cls == "TsdFrame" and list(r.columns) != list(x.columns):
+            V.append({"key": dict(kk, op="get", part="columns"), "what": "get(start, end) changed the column labels of the rows", "input": inp, "impl": list(r.columns),
+                      "expected": list(x.columns)})
+        elif _sup(r) != before:
+            V.append({"key": dict(kk, op="get", part="support", empty_result=not exp), "what": "get(start, end) changed the time support", "input": inp,
+                      "impl": _sup(r), "expected": before})
+        if not n:
+            continue
+        dmin = min(abs(t - a) for t in ts)
+        near = [i for i, t in enumerate(ts) if abs(t - a) == dmin]
+        if not isinstance(cs, slice) or np.arange(n)[cs].tolist() not in [[i] for i in near]:
+            V.append({"key": dict(kk, op="get_slice(start)", part="nearest"), "what": "get_slice(start) does not select a sample nearest to start", "input": inp})
+        if cls == "Ts":
+            okc = type(c) is type(x) and [C.to_ns(t) for t in c.t] in [[ts[i]] for i in near]
+        else:
+            okc = any(_same(np.asarray(c), V0[i]) for i in near)
+        if not okc:
+            V.append({"key": dict(kk, op="get(start)", part="nearest"), "what": "get(start) does not return a sample nearest to start", "input": inp})
+    return V, tags
+
+
+def _mk_group(nap, sp, tags):
+    """the TsGroup described by sp["group"] -> (g, expected {int key: (ticks, values or None)}); members: list of [ticks, kind]"""
+    h, iu = GRIDS[sp["grid"]]
+    gf = sp["group"]
+    members = [(list(m), k) for m, k in gf["members"]]
+    allt = [t for m, _ in members for t in m] + [t for s_, e_ in sp.get("ep", []) for t in (s_, e_)] + [t for w in sp.get("wins", []) for t in w]
+    lo, hi = (min(allt), max(allt)) if allt else (0, 2 * h)
+    supkind = gf["supkind"]
+    if supkind == "default" and (not members or any(len(set(m)) == 1 for m, _ in members) or not any(m for m, _ in members)):
+        supkind = "wide"            # zero-span members / an empty group need an explicit support
+    if supkind == "wide":
+        sup = [(lo - 4 * h, hi + 4 * h)]
+    elif supkind == "multi":
+        mid = lo + ((hi - lo) // (2 * h)) * h
+        sup = [(lo - 4 * h, mid - h), (mid + h, hi + 4 * h)] if hi - lo >= 6 * h else [(lo - 4 * h, hi + 4 * h)]
+    else:
+        sup = None
+    supo = None if sup is None else nap.IntervalSet(G.arr([u for u, _ in sup]), G.arr([w for _, w in sup]))
+    hist = gf["hist"]
+    extra = hist == "index" and len(members) < 4
+    labels = list(KEYFORMS[gf["keyform"]][:len(members) + (1 if extra else 0)])
+    build = gf["build"]
+    if build == "list":
+        labels = list(range(len(labels)))
+    objs, exp = [], {}
+    msup = supo if gf["bypass"] else None
+    for j, lab in enumerate(labels):
+        m, kind = members[j] if j < len(members) else (members[0][0] if members else [lo], "Ts")
+        vals = np.arange(len(m)) + 100
+        if build.startswith("arrays"):
+            u = build[7:]
+            objs.append(np.array([t / UF[u] for t in m], dtype=np.float64))
+            kind = "Ts"
+        elif kind == "Tsd":
+            objs.append(nap.Tsd(G.arr(m), vals, time_support=msup) if msup is not None else nap.Tsd(G.arr(m), vals))
+        else:
+            objs.append(nap.Ts(G.arr(m), time_support=msup) if msup is not None else nap.Ts(G.arr(m)))
+        keep = [i for i, t in enumerate(m) if sup is None or G.mem(t, sup)]
+        exp[int(float(lab))] = ([m[i] for i in keep], vals[keep] if kind == "Tsd" else None)
+    data = objs if build == "list" else dict(zip(labels, objs))
+    kw = {}
+    if supo is not None:
+        kw["time_support"] = supo
+    if build.startswith("arrays") and build[7:] != "s":
+        kw["time_units"] = build[7:]
+    if gf["bypass"]:
+        kw["bypass_check"] = True
+    if gf["meta"]:
+        kw["metadata"] = {"lab": ["m%d" % j for j in range(len(labels))]}
+    g = nap.TsGroup(data, **kw)
+    if hist == "index":
+        keys = sorted(int(float(lab)) for lab in labels[:len(members)])
+        g = g[keys]
+        exp = {k: exp[k] for k in keys}
+    elif hist == "restrict":
+        R = sup if sup is not None else [(lo - 4 * h, hi + 4 * h)]
+        g = g.restrict(nap.IntervalSet(G.arr([u for u, _ in R]), G.arr([w for _, w in R])))
+        exp = {k: ([t for t in m if G.mem(t, R)], None if v is None else v[[i for i, t in enumerate(m) if G.mem(t, R)]]) for k, (m, v) in exp.items()}
+    elif hist == "get":
+        g = g.get(float(G.arr([lo - h])[0]), float(G.arr([hi + h])[0]))
+    tags += ["group keys=" + ("0..n-1 (list)" if build == "list" else gf["keyform"]), "group build=" + build, "group support=" + supkind, "group history=" + hist]
+    if gf["bypass"]:
+        tags.append("group bypass_check=True")
+    if gf["meta"]:
+        tags.append("group with metadata")
+    if not members:
+        tags.append("EMPTY group")
+    if any(not m for m, _ in exp.values()):
+        tags.append("group with an EMPTY member")
+    if any(v is not None for _, v in exp.values()):
+        tags.append("group with Tsd members")
+    return g, exp
+
+
+def group_form_case(nap, sp):
+    """TsGroup.get member-wise in the argument forms of sp. Returns (violations, tags)."""
+    V, tags = [], []
+    try:
+        g, exp = _mk_group(nap, sp, tags)
+    except Exception as ex:
+        return [{"key": {"op": "TsGroup.get", "part": "construction", "widened": True}, "what": "building the group raised %s: %s" % (type(ex).__name__, str(ex)[:100]),
+                 "input": {"spec": sp}}], tags
+    units, cform = sp["units"], sp["cform"]
+    ul = units.lower()
+    gs = _sup(g)
+    msup = {k: _sup(g[k]) for k in exp}
+    for a, b in sp["wins"]:
+        A, sa = _scalar(a, ul, sp["sa"])
+        B, sb = _scalar(b, ul, sp["sb"])
+        tags += ["scalar form=" + sa, "scalar form=" + sb, "call form=" + cform, "units=" + units]
+        f32 = bool(_f32_inexact(A, ul, a) or _f32_inexact(B, ul, b))
+        tsdm = any(v is not None for _, v in exp.values())
+        kk = {"units": units, "widened": True, "scalar_float32": bool(sa == "np.float32" or sb == "np.float32"), "float32_conversion_inexact": f32}
+        inp = {"spec": dict(sp, wins=[[a, b]]), "a": a, "b": b, "start": repr(A), "end": repr(B)}
+        dflt = units == "s" and cform in ("kw", "mixed")
+        closest = all(m for m, _ in exp.values())
+        try:
+            rg = _call(g.get, [("start", A)], [("end", B, None, False), ("time_units", units, "s", dflt)], cform)
+        except Exception as ex:
+            if isinstance(ex, CLEAN) and ("0d" in (sa, sb) or units != ul):
+                tags.append("0-d array scalar rejected with a clean exception" if units == ul else "unit string in another letter case rejected with a clean exception")
+                continue
+            V.append({"key": dict(kk, op="TsGroup.get", part="exception", exc=type(ex).__name__), "what": "TsGroup.get raised %s: %s" % (type(ex).__name__, str(ex)[:100]), "input": inp})
+            continue
+        cg = None
+        if closest:
+            try:
+                cg = _call(g.get, [("start", A)], [("end", None, None, True), ("time_units", units, "s", dflt)], cform)
+            except Exception as ex:
+                if isinstance(ex, CLEAN) and (sa == "0d" or units != ul):
+                    tags.append("0-d array scalar rejected with a clean exception" if units == ul else "unit string in another letter case rejected with a clean exception")
+                else:
+                    V.append({"key": dict(kk, op="TsGroup.get(start)", part="exception", tsd_member=tsdm, exc=type(ex).__name__),
+                              "what": "TsGroup.get(start) raised %s: %s" % (type(ex).__name__, str(ex)[:100]), "input": inp})
+        if type(rg) is not type(g) or list(rg.keys()) != sorted(exp) or _sup(rg) != gs or (cg is not None and (list(cg.keys()) != sorted(exp) or _sup(cg) != gs)):
+            V.append({"key": dict(kk, op="TsGroup.get", part="keys_support"), "what": "TsGroup.get lost members or changed the group's support", "input": inp})
+            continue
+        for k, (m, v) in exp.items():
+            sel = [i for i, t in enumerate(m) if a <= t <= b]
+            if [C.to_ns(t) for t in rg[k].t] != [m[i] for i in sel] or type(rg[k]) is not type(g[k]) or (v is not None and not _same(rg[k].values, v[sel])):
+                V.append({"key": dict(kk, op="TsGroup.get", part="samples"), "what": "TsGroup.get is not member-wise get", "input": dict(inp, member=k)})
+            elif _sup(rg[k]) != msup[k]:
+                V.append({"key": dict(kk, op="TsGroup.get", part="member_support", empty_result=not sel),
+                          "what": "TsGroup.get changed a member's time support", "input": dict(inp, member=k), "impl": _sup(rg[k]), "expected": msup[k]})
+            if cg is not None:
+                d_ = min(abs(t - a) for t in m)
+                if [C.to_ns(t) for t in cg[k].t] not in [[t] for t in m if abs(t - a) == d_]:
+                    V.append({"key": dict(kk, op="TsGroup.get(start)", part="nearest"), "what": "TsGroup.get(start) is not the member's nearest sample",
+                              "input": dict(inp, member=k)})
+    return V, tags
+
+
+def _mk_ep(nap, ep, epform, iu, h):
+    """the trial IntervalSet `ep` (tick pairs) in the requested argument form -> (IntervalSet, form used)"""
+    pd = _pd()
+    S, E = G.arr([s for s, _ in ep]), G.arr([e for _, e in ep])
+    m = len(ep)
+    if epform == "kw":
+        return nap.IntervalSet(start=S, end=E), epform
+    if epform == "list":
+        return nap.IntervalSet(S.tolist(), E.tolist()), epform
+    if epform == "tuple":
+        return nap.IntervalSet(tuple(S.tolist()), tuple(E.tolist())), epform
+    if epform.startswith("int:") and iu is not None and all(t % UF[iu] == 0 for se in ep for t in se):
+        for dt in (epform[4:], "int64"):
+            info = np.iinfo(np.dtype(dt))
+            if all(info.min <= t // UF[iu] <= info.max for se in ep for t in se):
+                return nap.IntervalSet(np.array([s // UF[iu] for s, _ in ep], dtype=dt), np.array([e // UF[iu] for _, e in ep], dtype=dt), time_units=iu), "int:" + dt + " time_units=" + iu
+    if epform in ("unit_ms", "unit_us"):
+        u = epform[5:]
+        return nap.IntervalSet(np.array([s / UF[u] for s, _ in ep]), np.array([e / UF[u] for _, e in ep]), time_units=u), epform
+    if epform == "pairs":
+        return nap.IntervalSet(np.stack([S, E], axis=1)), epform
+    if epform == "df":
+        return nap.IntervalSet(pd.DataFrame({"start": S, "end": E})), epform
+    if epform == "meta":
+        return nap.IntervalSet(S, E, metadata={"lab": ["t%d" % i for i in range(m)]}), epform
+    if epform == "inter":
+        return nap.IntervalSet(S, E).intersect(nap.IntervalSet(float(S[0]) - 1.0, float(E[-1]) + 1.0)), epform
+    if epform in ("index", "slice"):
+        big = nap.IntervalSet(np.append(S, E[-1] + 1.0), np.append(E, E[-1] + 2.0))
+        return (big[list(range(m))] if epform == "index" else big[0:m]), epform
+    if epform == "copy":
+        return nap.IntervalSet(nap.IntervalSet(S, E)), epform
+    if epform == "f32" and np.array_equal(S.astype(np.float32).astype(float), S) and np.array_equal(E.astype(np.float32).astype(float), E):
+        return nap.IntervalSet(S.astype(np.float32), E.astype(np.float32)), epform
+    return nap.IntervalSet(S, E), "arr"
+
+
+def _crows(tt, ep, b):
+    """count's bins per trial: half-open [l, l+b), kept when the bin centre lies in the trial; only the trial's own samples"""
+    out_ = []
+    for s, e in ep:
+        row, l = [], s
+        while 2 * l + b <= 2 * e:
+            row.append(sum(1 for t in tt if s <= t <= e and l <= t < l + b))
+            l += b
+        out_.append(row)
+    return out_
+
+
+def tensor_form_case(nap, sp):
+    """to_trial_tensor / build_tensor of a Tsd / TsdFrame / TsdTensor in the argument forms of sp. Returns (violations, tags)."""
+    V, tags = [], []
+    h, iu = GRIDS[sp["grid"]]
+    ep = [tuple(e) for e in sp["ep"]]
+    try:
+        x, ts, V0, cols = _mk_series(nap, sp, tags)
+        epo, epu = (_mk_ep(nap, ep, sp["epform"], iu, h) if ep else (nap.IntervalSet([], []), "EMPTY IntervalSet"))
+    except Exception as ex:
+        return [{"key": {"op": "to_trial_tensor", "part": "construction", "cls": sp["cls"], "widened": True},
+                 "what": "building the inputs raised %s: %s" % (type(ex).__name__, str(ex)[:100]), "input": {"spec": sp}}], tags
+    tags.append("trials form=" + epu)
+    cls, al, padf, cform = sp["cls"], sp["align"], sp["pad"], sp["cform"]
+    pad = PADS[padf]
+    align_end = al.lower() == "end"     # an align string in another letter case ("End"): rejected with a clean exception, or the statement for the word it spells
+    odd = al not in ("start", "end", "default")
+    alv = "start" if al == "default" else al
+    n = len(ts)
+    kc = int(np.prod(V0.shape[1:])) if V0.ndim > 1 else 1
+    flat = np.asarray(V0).reshape(n, kc)
+    idx = [[i for i, t in enumerate(ts) if s <= t <= e] for s, e in ep]
+    w = max([len(r) for r in idx], default=0)
+    E = np.array([_pad([[float(flat[i, c]) for i in r] for r in idx], w, float(pad), align_end) for c in range(kc)], dtype=float).reshape(tuple(V0.shape[1:]) + (len(ep), w))
+    opts = [("align", alv, "start", al == "default"), ("padding_value", pad, np.nan, padf == "default")]
+    inp = {"spec": sp}
+    tags += ["align=" + al, "padding form=" + padf, "call form=" + cform]
+    calls = [("to_trial_tensor", False, lambda: _call(x.to_trial_tensor, [("ep", epo)], opts, cform))]
+    btf = sp["bt"]
+    tags.append("build_tensor form=" + btf)
+    if btf == "omit":        # bin_size not given at all
+        calls.append(("build_tensor", False, lambda: _call(nap.build_tensor, [("input", x), ("ep", epo)], opts, "kw" if cform in ("pos", "kwall") else cform)))
+    elif btf == "none":      # bin_size=None, the documented default, spelled out (positionally it is the only way to reach align / padding_value positionally)
+        calls.append(("build_tensor", True, lambda: _call(nap.build_tensor, [("input", x), ("ep", epo)], [("bin_size", None, None, cform not in ("pos", "kwall"))] + opts
+                                                          + [("time_unit", "s", "s", True)], cform if cform in ("pos", "kwall") else "kwall")))
+    else:                    # a bin_size / time_unit that a Tsd-like ignores
+        calls.append(("build_tensor", False, lambda: _call(nap.build_tensor, [("input", x), ("ep", epo)], [("bin_size", 2, None, False)] + opts
+                                                           + [("time_unit", "ms", "s", False)], cform)))
+    for fn, none_given, call in calls:
+        kk = {"op": fn, "align": alv, "cls": cls, "widened": True, "bin_size_none_explicit": bool(none_given)}
+        try:
+            T = call()
+        except Exception as ex:
+            if isinstance(ex, CLEAN) and (not ep or odd):
+                tags.append("EMPTY trial set rejected with a clean exception" if not ep else "align string in another letter case rejected with a clean exception")
+                continue
+            V.append({"key": dict(kk, part="exception", exc=type(ex).__name__), "what": "%s raised %s: %s" % (fn, type(ex).__name__, str(ex)[:100]), "input": inp})
+            continue
+        if not _eqnan(T, E):
+            V.append({"key": dict(kk, part="rows"), "what": "trial tensor row is not that trial's samples, aligned and padded", "input": inp,
+                      "impl": np.asarray(T).tolist(), "expected": E.tolist()})
+    return V, tags
+
+
+def count_form_case(nap, sp):
+    """trial_count / build_tensor of a Ts and of a TsGroup in the argument forms of sp (dyadic or whole-second grid: every bin edge is exact). (violations, tags)"""
+    V, tags = [], []
+    h, iu = GRIDS[sp["grid"]]
+    ep = [tuple(e) for e in sp["ep"]]
+    ts = list(sp["ts"])
+    b, units = sp["b"], sp["units"]
+    try:
+        epo, epu = _mk_ep(nap, ep, sp["epform"], iu, h)
+        t_arg, tunits, used = _mk_times(nap, ts, sp["tform"], iu)
+        lo, hi = min(ts + [s for s, _ in ep]), max(ts + [e for _, e in ep])
+        wide = nap.IntervalSet(float(G.arr([lo - 4 * h])[0]), float(G.arr([hi + 4 * h])[0]))
+        p = nap.Ts(t_arg, time_units=tunits, time_support=wide)
+        g, gexp = _mk_group(nap, sp, tags)
+    except Exception as ex:
+        return [{"key": {"op": "trial_count", "part": "construction", "widened": True}, "what": "building the inputs raised %s: %s" % (type(ex).__name__, str(ex)[:100]),
+                 "input": {"spec": sp}}], tags
+    tags += ["trials form=" + epu, "time form=" + used + ("" if tunits == "s" else " time_units=" + tunits)]
+    al, padf, cform = sp["align"], sp["pad"], sp["cform"]
+    pad = PADS[padf]
+    align_end = al.lower() == "end"
+    ul = units.lower()
+    odd = al not in ("start", "end", "default") or units != ul
+    alv = "start" if al == "default" else al
+    Bv, bf = _scalar(b, ul, sp["bform"])
+    tags += ["align=" + al, "padding form=" + padf, "call form=" + cform, "bin_size form=" + bf, "units=" + units]
+    wc = max(len(r) for r in _crows(ts, ep, b))
+    EC = lambda m: np.array(_pad(_crows(m, ep, b), wc, float(pad), align_end), dtype=float).reshape(len(ep), wc)
+    EG = np.array([EC(gexp[k][0]) for k in sorted(gexp)]).reshape(len(gexp), len(ep), wc)
+    dflt = units == "s" and cform in ("kw", "mixed")
+    opts = [("align", alv, "start", al == "default"), ("padding_value", pad, np.nan, padf == "default"), ("time_unit", units, "s", dflt)]
+    inp = {"spec": sp, "bin_size": repr(Bv)}
+    for fn, call, E in (("trial_count", lambda: _call(p.trial_count, [("ep", epo), ("bin_size", Bv)], opts, cform), EC(ts)),
+                        ("build_tensor(Ts)", lambda: _call(nap.build_tensor, [("input", p), ("ep", epo), ("bin_size", Bv)], opts, cform), EC(ts)),
+                        ("TsGroup.trial_count", lambda: _call(g.trial_count, [("ep", epo), ("bin_size", Bv)], opts, cform), EG),
+                        ("build_tensor(TsGroup)", lambda: _call(nap.build_tensor, [("input", g), ("ep", epo), ("bin_size", Bv)], opts, cform), EG)):
+        kk = {"op": fn, "align": alv, "units": units, "no_bin_fits": wc == 0, "widened": True, "empty_group": not gexp}
+        try:
+            TC = call()
+        except Exception as ex:
+            if isinstance(ex, CLEAN) and (bf == "0d" or odd):
+                tags.append("0-d array scalar rejected with a clean exception" if bf == "0d" else "align / unit string in another letter case rejected with a clean exception")
+                continue
+            V.append({"key": dict(kk, part="exception", exc=type(ex).__name__), "what": "%s raised %s: %s" % (fn, type(ex).__name__, str(ex)[:100]), "input": inp})
+            continue
+        if not _eqnan(TC, E):
+            V.append({"key": dict(kk, part="rows"), "what": "trial_count row is not that trial's (member's) binned count, aligned and padded", "input": inp,
+                      "impl": np.asarray(TC).tolist(), "expected": E.tolist()})
+    return V, tags
+
+
+HISTS = ("none", "none", "restrict", "slice", "get", "arith", "npfunc", "saveload", "twice")
+GHISTS = ("none", "none", "index", "restrict", "get", "twice")
+
+
+def _rand_series(rng, idx_sets, grids=("dyadic", "dyadic", "int_s", "int_ms", "int_us", "ns"), classes=("Ts", "Tsd", "Tsd", "TsdFrame", "TsdFrame", "TsdTensor"), empty=0.03):
+    """one receiver in a random combination of the argument-form axes (every choice derives from rng)"""
+    tform = rng.choice(TFORMS)
+    grid = rng.choice(grids)
+    if tform.startswith("int"):
+        grid = rng.choice([g_ for g_ in grids if g_ != "dyadic"] or list(grids))
+    elif tform == "float32":
+        grid = rng.choice([g_ for g_ in grids if g_ in ("dyadic", "int_s")] or list(grids))
+    h, iu = GRIDS[grid]
+    if tform.startswith("int:uint"):
+        off = rng.choice([0, 0, BIG])
+    elif tform == "float32":
+        off = rng.choice([0, -6 * h])
+    elif grid == "ns":
+        off = rng.choice([0, -6 * h, -1000 * h])       # 1 ns spacing: at 1e5 s the ms / us values of these instants are not float64 numbers
+    else:
+        off = rng.choice([0, 0, -6 * h, -1000 * h, BIG])
+    ks = rng.choice(idx_sets)
+    ts = [] if rng.random() < empty else [off + 2 * h * k for k in ks]
+    cls = rng.choice(classes)
+    trail = {"Ts": None, "Tsd": [], "TsdFrame": [rng.choice([1, 2, 3])], "TsdTensor": rng.choice([[2, 2], [1, 1], [2, 1, 2]])}[cls]
+    return {"grid": grid, "off": off, "ts": ts, "cls": cls, "trail": trail, "dtype": rng.choice(DTYPES), "special": rng.choice(["ident"] * 4 + ["nan", "inf", "naninf", "equal", "zeros"]),
+            "layout": rng.choice(["C", "C", "F", "view", "shared"]), "tform": tform, "supkind": rng.choice(["default", "wide", "multi"]), "hist": rng.choice(HISTS),
+            "columns": rng.choice(sorted(COLUMNS)), "frame_meta": rng.random() < 0.3}
+
+
+def _rand_units(rng):
+    u = rng.choice(["s", "ms", "us"])
+    return rng.choice([u.upper(), u.capitalize()]) if rng.random() < 0.04 else u
+
+
+def _rand_align(rng):
+    return rng.choice(["End", "START", "END", "Start"]) if rng.random() < 0.05 else rng.choice(["start", "end", "default"])
+
+
+def _rand_wins(rng, off, h, N, k):
+    out = []
+    for _ in range(k):
+        a, b = sorted((rng.randrange(-2, 2 * N + 2), rng.randrange(-2, 2 * N + 2)))
+        out.append([off + h * a, off + h * b])
+    return out
+
+
+def _rand_group(rng, off, h, idx_sets, count_exact=False):
+    nm = rng.choice([0, 1, 2, 3, 3, 3])
+    members = []
+    for _ in range(nm):
+        ks = rng.choice(idx_sets)
+        members.append([[off + 2 * h * k for k in ks], rng.choice(["Ts", "Ts", "Tsd"])])
+    if nm >= 2 and rng.random() < 0.3:
+        members[rng.randrange(nm)][0] = []                 # an empty member
+    build = rng.choice(["dict", "dict", "dict", "list", "arrays:s", "arrays:ms", "arrays:us"])
+    return {"members": members, "keyform": rng.choice(sorted(KEYFORMS)), "build": build, "supkind": rng.choice(["wide", "multi", "default"]),
+            "bypass": rng.random() < 0.3, "meta": rng.random() < 0.4, "hist": "none" if nm == 0 else rng.choice(GHISTS)}
+
+
+def _rand_trials(rng, off, h, trial_idx):
+    return [[off + 2 * h * s, off + 2 * h * e] for s, e in rng.choice(trial_idx)]
+
+
+def run_widened(res, nap, tier, seed):
+    """the argument-form axes (dtype of the data, form of the time arguments and scalars, positional / keyword / default / None, units, time placement,
+    degenerate receivers, every class, multi-step histories) for every operation of the statement"""
+    import json
+    N = 6
+    big = tier != "quick"
+    rng = random.Random(seed * 7 + 3)
+    idx_sets = [ks for ks in G.sorted_multisets(list(range(N)), 4) if ks]
+    trial_idx = [e for e in G.canonical_isets(list(range(7)), 3) if e]
+
+    def book(kind, sp, v, tags, nontrivial=True):
+        res.case((kind, json.dumps(sp, sort_keys=True, default=str)), nontrivial=nontrivial)
+        res.count("forms: " + kind + " cases")
+        for t in tags:
+            res.count("forms: %s %s" % (kind, t))
+        res.violations.extend(v)
+
+    # 1. get / get_slice / get(start) / get_slice(start) on Ts, Tsd, TsdFrame, TsdTensor
+    for n in range(24000 if big else 3500):
+        sp = _rand_series(rng, idx_sets)
+        h = GRIDS[sp["grid"]][0]
+        sp.update(kind="get", wins=_rand_wins(rng, sp["off"], h, N, 3 if sp["hist"] == "twice" else 1), units=_rand_units(rng), sa=rng.choice(SFORMS), sb=rng.choice(SFORMS),
+                  cform=rng.choice(["pos", "kw", "kwall", "mixed"]))
+        if sp["hist"] == "twice":
+            sp["wins"].append(sp["wins"][0])
+        v, tags = get_form_case(nap, sp)
+        tags += ["class=" + sp["cls"], "grid=" + sp["grid"], "time placement=" + {0: "from 0", BIG: "offset 1e5 s"}.get(sp["off"], "negative / straddling 0")]
+        if sp["cls"] != "Ts":
+            tags += ["data dtype=" + sp["dtype"], "data=" + sp["special"], "memory layout=" + sp["layout"]]
+        if sp["cls"] == "TsdFrame":
+            tags.append("columns=" + sp["columns"] + (" + metadata" if sp["frame_meta"] else ""))
+        if not sp["ts"]:
+            tags.append("EMPTY series")
+        elif len(sp["ts"]) == 1:
+            tags.append("one sample")
+        book("get", sp, v, tags, nontrivial=any(0 < sum(1 for t in sp["ts"] if a <= t <= b) < len(sp["ts"]) for a, b in sp["wins"]))
+        if n % 997 == 0:
+            res.sample({"widened get case": sp}, limit=8)
+    # 2. TsGroup.get member-wise
+    for n in range(4000 if big else 600):
+        grid = rng.choice(["dyadic", "int_s", "int_ms", "int_us", "ns"])
+        h = GRIDS[grid][0]
+        off = rng.choice([0, 0, -6 * h, -1000 * h] + ([] if grid == "ns" else [BIG]))
+        gf = _rand_group(rng, off, h, idx_sets)
+        sp = {"kind": "group", "grid": grid, "off": off, "group": gf, "wins": _rand_wins(rng, off, h, N, 3 if gf["hist"] == "twice" else 1), "units": _rand_units(rng),
+              "sa": rng.choice(SFORMS), "sb": rng.choice(SFORMS), "cform": rng.choice(["pos", "kw", "kwall", "mixed"])}
+        v, tags = group_form_case(nap, sp)
+        tags += ["grid=" + grid, "time placement=" + {0: "from 0", BIG: "offset 1e5 s"}.get(off, "negative / straddling 0")]
+        book("TsGroup.get", sp, v, tags)
+    # 3. to_trial_tensor / build_tensor of Tsd, TsdFrame, TsdTensor
+    for n in range(8000 if big else 1100):
+        sp = _rand_series(rng, idx_sets, classes=("Tsd", "Tsd", "TsdFrame", "TsdFrame", "TsdTensor"), empty=0.02)
+        h = GRIDS[sp["grid"]][0]
+        if sp["hist"] == "twice":
+            sp["hist"] = "none"
+        sp.update(kind="tensor", ep=[] if rng.random() < 0.02 else _rand_trials(rng, sp["off"], h, trial_idx), epform=rng.choice(EPFORMS), align=_rand_align(rng),
+                  pad=rng.choice(PADFORMS + ("default",)), cform=rng.choice(["pos", "kw", "kwall", "mixed"]), bt=rng.choice(["omit", "none", "ignored"]))
+        v, tags = tensor_form_case(nap, sp)
+        tags += ["class=" + sp["cls"], "grid=" + sp["grid"], "data dtype=" + sp["dtype"], "data=" + sp["special"], "memory layout=" + sp["layout"],
+                 "time placement=" + {0: "from 0", BIG: "offset 1e5 s"}.get(sp["off"], "negative / straddling 0")]
+        if sp["cls"] == "TsdFrame":
+            tags.append("columns=" + sp["columns"] + (" + metadata" if sp["frame_meta"] else ""))
+        if not sp["ts"]:
+            tags.append("EMPTY series")
+        if any(not any(s <= t <= e for t in sp["ts"]) for s, e in sp["ep"]):
+            tags.append("trial with no sample")
+        if len(sp["ep"]) == 1:
+            tags.append("one trial")
+        book("trial tensor", sp, v, tags)
+    # 4. trial_count / build_tensor of Ts and TsGroup (grids on which every bin edge is exact in float64)
+    for n in range(4000 if big else 600):
+        grid = rng.choice(["dyadic", "int_s"])
+        h = GRIDS[grid][0]
+        tform = rng.choice(TFORMS[:-1])
+        off = rng.choice([0, 0, BIG] if tform.startswith("int:uint") else [0, 0, -6 * h, -1000 * h, BIG])
+        ks = rng.choice(idx_sets)
+        ts = [off + 2 * h * k for k in ks]
+        gf = _rand_group(rng, off, h, idx_sets)
+        gf["hist"] = "none" if gf["hist"] == "twice" else gf["hist"]
+        # the existing trial section uses the members {ts, ts[::2], ts[1:]}: keep one member equal to the Ts under test
+        if gf["members"]:
+            gf["members"][0][0] = list(ts)
+        units = _rand_units(rng)
+        sp = {"kind": "count", "grid": grid, "off": off, "ts": ts, "tform": tform, "group": gf, "ep": _rand_trials(rng, off, h, trial_idx), "epform": rng.choice(EPFORMS),
+              "b": rng.choice([2 * h, 4 * h, 6 * h]), "units": units, "bform": rng.choice(SFORMS), "align": _rand_align(rng), "pad": rng.choice(PADFORMS + ("default",)),
+              "cform": rng.choice(["pos", "kw", "kwall", "mixed"])}
+        v, tags = count_form_case(nap, sp)
+        tags += ["grid=" + grid, "time placement=" + {0: "from 0", BIG: "offset 1e5 s"}.get(off, "negative / straddling 0")]
+        book("trial_count", sp, v, tags)
+    # 5. warp_tensor of timestamps (Ts and TsGroup): dyadic lattice and millisecond lattice, every form of the receiver, the trials and the call
+    for n in range(3000 if big else 400):
+        nb = rng.choice([1, 2, 3, 4, 5, 6, 7, 10, 30])
+        if n % 2:
+            kind, h = "dyadic", U
+            off = rng.choice([0, -6 * h, -1000 * h, BIG])
+            ts = [off + 2 * h * k for k in rng.choice(idx_sets)]
+            ts2 = [off + 2 * h * k for k in rng.choice(idx_sets)]
+            ep = [tuple(e) for e in _rand_trials(rng, off, h, trial_idx)]
+        else:
+            kind, h = "ms", 10 ** 5
+            off = rng.choice([0, -4 * 10 ** 8, BIG])
+            ep, s = [], off + rng.randrange(0, 50) * 10 ** 6
+            for _ in range(rng.randint(1, 3)):
+                d = rng.randrange(1, 400) * (10 ** 6 if rng.random() < 0.7 else 10 ** 5) * (nb if rng.random() < 0.4 else 1)
+                ep.append((s, s + d))
+                s += d + rng.randrange(1, 50) * 10 ** 6
+            tt = set()
+            for s_, e_ in ep:
+                edges = [s_ + j * (e_ - s_) // nb for j in range(nb + 1) if (j * (e_ - s_)) % nb == 0]
+                tt.update(rng.sample(edges, min(len(edges), 3)))
+                tt.update(s_ + rng.randrange(0, (e_ - s_) // 10 ** 5 + 1) * 10 ** 5 for _ in range(3))
+            ts = sorted(tt)
+            ts2 = ts[1::2] or ts
+        members = [[list(ts), "Ts"], [list(ts2), rng.choice(["Ts", "Tsd"])]]
+        if rng.random() < 0.3:
+            members.append([[], "Ts"])
+        if rng.random() < 0.05:
+            members = []
+        gf = {"members": members, "keyform": rng.choice(sorted(KEYFORMS)), "build": rng.choice(["dict", "dict", "list", "arrays:s", "arrays:ms", "arrays:us"]),
+              "supkind": rng.choice(["wide", "wide", "default"]), "bypass": rng.random() < 0.3, "meta": rng.random() < 0.4, "hist": "none" if not members else rng.choice(GHISTS[:-1])}
+        form = {"tform": rng.choice(TFORMS[:-1]), "epform": rng.choice(EPFORMS), "cform": rng.choice(["pos", "kw", "mixed"]), "nbform": rng.choice(["int", "int", "int", "np.int64"]), "group": gf}
+        tags = []
+        v = warp_case(nap, ts, ts2, ep, nb, kind, form=form, tags=tags)
+        tags += ["lattice=" + kind, "time placement=" + {0: "from 0", BIG: "offset 1e5 s"}.get(off, "negative / straddling 0")]
+        if not all((e - s) % nb == 0 for s, e in ep):
+            tags.append("num_bins does not divide")
+        book("warp_tensor", {"ts": ts, "ts2": ts2, "ep": ep, "nb": nb, "form": form}, v, tags)
 
 
 def run(res, tier, seed):
@@ -182,7 +1010,29 @@ def run(res, tier, seed):
                 "{default, explicit, two-interval} support x 3 units for get, get_slice, get(start), get_slice(start): every row, every group member, supports of result and members. "
                 "Trial tensors: Tsd float/int, TsdFrame, TsdTensor (zero-span series included), 3 padding values incl. NaN, build_tensor for Tsd-likes, Ts and TsGroup, trial_count in 3 units, "
                 "every TsGroup member; warp_tensor (Ts and TsGroup) with num_bins in 1..7,30 dividing or NOT the trial durations, samples on the exact bin edges, dyadic and millisecond "
-                "lattices, against exact rational equal bins. non-trivial = window cuts the data (0 < selected < n)" % nmax)
+                "lattices, against exact rational equal bins. non-trivial = window cuts the data (0 < selected < n). "
+                "WIDENED ARGUMENT FORMS (run_widened; seeded random product of the axes, every case a replayable spec; the model comparison stays on the plain forms above, the statement "
+                "oracle is applied to every form): "
+                "[1 data dtype] float64/float32/int64/int32/int16/int8/uint8..uint64/bool data, cells NaN / +inf / -inf (float dtypes), all-equal and all-zero data, C / Fortran / strided-view "
+                "memory and buffers shared with another live object; get must keep the dtype and (TsdFrame) the column labels. "
+                "[2 time forms] timestamps given as ndarray, list, tuple, pandas Index, pandas Series/DataFrame source, another object's TsIndex, another object's .t, float32 array, "
+                "float arrays in ms/us with time_units, integer arrays int64..int16 / uint8..uint64 and Python-int lists in s/ms/us; start / end / bin_size as Python float, Python int, "
+                "np.float64, np.float32, np.int64/32/16, np.uint8/16/64 (only when the scalar holds the instant exactly) and as a 0-d array (must be rejected with a clean exception or obey "
+                "the statement); trial IntervalSets from arrays, keywords, lists, tuples, integer and unsigned arrays with time_units, ms/us floats, an (n,2) array, a DataFrame, with metadata, "
+                "float32, a copy, intersect(), integer-list and slice indexing of a larger set, the empty set. "
+                "[3 call forms] every parameter positionally, by keyword, with the defaults omitted, with the defaults spelled out (end=None, bin_size=None, align='start', padding nan, "
+                "time_unit 's'), align x padding x unit combined; padding as float / int / np.float32 / np.float64 / np.int64 / nan / +-inf; build_tensor of a Tsd-like with bin_size omitted, "
+                "None, or given (ignored); warp_tensor num_bins as int and np.int64 (rejected cleanly or correct); align / unit strings in another letter case ('End', 'MS': rejected with a clean exception, or the statement for the word they spell). "
+                "[4 units] s / ms / us for the constructor, the window, the bin size and the trials: the same instants must give the same result. "
+                "[5 placement] data from 0, below / across 0, at -1000 steps, at +1e5 s; dyadic, whole-second, whole-ms, whole-us and 1 ns grids (trial_count only on the dyadic and whole-second "
+                "grids, where every bin edge is exact); samples on window / trial / bin edges throughout. "
+                "[6 degenerate] empty series (get(start,end) and the tensors; get(start) is not defined), one sample, all timestamps equal (explicit support), duplicates, one trial, trials "
+                "without sample, an empty trial set (clean exception or zero rows), an empty TsGroup, a group with an empty member, keys unsorted / strings incl. multi-digit / floats / numpy "
+                "ints / 0..n-1 from a list. "
+                "[7 classes] Ts, Tsd, TsdFrame (1-3 columns; default, string, unsorted string, unsorted integer labels; with metadata), TsdTensor (3-D and 4-D), TsGroup from a dict, a list, "
+                "raw arrays with time_units, with Ts and Tsd members, with metadata. "
+                "[8 histories] receiver produced by restrict, slicing, get, arithmetic, a numpy ufunc, save + load_file, the same live object queried several times; groups produced by "
+                "indexing, restrict, get, bypass_check=True" % nmax)
     res.exhaustive = tier == "thorough"
     rng = random.Random(seed * 5 + 1)
     tss = [ts for ts in G.sorted_multisets(pts, nmax) if len(ts) >= 1]
@@ -366,6 +1216,7 @@ def run(res, tier, seed):
         if not all((e - s) % nb == 0 for s, e in ep):
             res.count("warp_cases num_bins does not divide")
         res.violations.extend(warp_case(nap, ts, ts[1::2] or ts, ep, nb, "ms"))
+    run_widened(res, nap, tier, seed)
 
 
 def search(res, seed):
@@ -386,8 +1237,12 @@ def replay(payload):
         for w in vs[:5]:
             print("violation:", w["key"], w["what"], {k: w[k] for k in ("impl", "expected") if k in w})
         return 1 if vs else 0
+    if "spec" in inp:
+        sp = inp["spec"]
+        fn = {"get": get_form_case, "group": group_form_case, "tensor": tensor_form_case, "count": count_form_case}[sp["kind"]]
+        return fresh(fn(nap, sp)[0])
     if "num_bins" in inp:
-        return fresh(warp_case(nap, ts, inp.get("ts2", ts), [tuple(x) for x in inp["ep"]], inp["num_bins"], (v.get("key") or {}).get("lattice", "replay")))
+        return fresh(warp_case(nap, ts, inp.get("ts2", ts), [tuple(x) for x in inp["ep"]], inp["num_bins"], (v.get("key") or {}).get("lattice", "replay"), form=inp.get("form")))
     if "supkind" in inp:
         return fresh(class_case(nap, ts, inp["a"], inp["b"], inp["supkind"]) or [])
     x = nap.Tsd(G.arr(ts), np.arange(len(ts)) + 100)
